@@ -23,7 +23,7 @@ func init() {
 
 // ---------------------------------------------------------------- sketches
 
-var c14MutKinds = []string{"add", "add", "add", "burst", "merge", "decmerge", "clear", "reweight", "encdec"}
+var c14MutKinds = []string{"add", "add", "add", "burst", "merge", "decmerge", "deczeros", "clear", "reweight", "encdec"}
 var c14ReadKinds = []string{"observe", "foreach-stop", "toproto", "encodeproto", "encode", "copy", "copy", "merge-argument", "changemapping", "store-reads"}
 
 type popSk struct {
